@@ -163,6 +163,13 @@ func genX509(r *c.Rng) *Case {
 	if wild && r.Chance(1, 2) {
 		k.SNA = TD{Kind: 2, D: c.Pick(r, durPool)}
 	}
+	// the X.509 overflow family: notAfter − notBefore ≡ r (mod 2⁶⁴ ns) with r ∈ [min, max+backdate]
+	// (a lifetime of k·584.5 years + r that a wrapping seconds→nanoseconds product would take for r);
+	// forward from the effective start, or with the start pushed centuries into the past. Expected: refused.
+	overflow := false
+	if r.Chance(1, 10) {
+		overflow = x509Overflow(r, k, mn, addSat(mx, k.Backdate), nbOff)
+	}
 	// dates already on the template (rare)
 	if r.Chance(1, 12) {
 		k.CNB = T{Rel: true, Off: c.Pick(r, []int64{0, -min, min, -hr})}
@@ -170,7 +177,11 @@ func genX509(r *c.Rng) *Case {
 	if r.Chance(1, 12) {
 		k.CNA = T{Rel: true, Off: addSat(nbOff, aim())}
 	}
-	if r.Chance(2, 5) {
+	if overflow && r.Chance(1, 2) {
+		// a credential valid from year 0000 to 9999 lets the family through profileLimitDuration
+		k.Mode = "lim"
+		k.LNB, k.LNA = absTimes[2], absTimes[8]
+	} else if r.Chance(2, 5) {
 		k.Mode = "lim"
 		// credential window around the request
 		k.LNB = T{Rel: true, Off: addSat(nbOff, c.Pick(r, []int64{-hr, -dy, -min, 0, 1, -1, sec, -sec, -k.Backdate, -k.Backdate + 1, -365 * dy}))}
@@ -214,6 +225,46 @@ func wrapWitness(lo, hi int64, kWraps, j int64) uint64 {
 		return 0
 	}
 	return s.Uint64()
+}
+
+// pickWitness draws one member of the wrap family for the window [lo, hi] with at most maxK wraps.
+func pickWitness(r *c.Rng, lo, hi, maxK int64) uint64 {
+	if hi < lo {
+		return 0
+	}
+	width := (hi - lo) / sec
+	if width < 1 {
+		width = 1
+	}
+	return wrapWitness(lo, hi, 1+int64(r.Intn(int(maxK))), int64(r.Intn(int(width))))
+}
+
+// x509Overflow rewrites the requested dates of k into a member of the X.509 overflow family.
+func x509Overflow(r *c.Rng, k *X509Case, lo, hi, nbOff int64) bool {
+	if r.Chance(1, 2) { // forward: notAfter = effective start + s seconds (year ≤ 9999 ⇒ k ≤ 13)
+		s := pickWitness(r, lo, hi, 13)
+		if s == 0 {
+			return false
+		}
+		if k.SNB.Kind == 1 && !k.SNB.T.Rel {
+			k.SNB = TD{} // keep the start near the clock
+			nbOff = k.NowOff
+		}
+		k.SNA = TD{Kind: 1, T: T{Rel: true, Off: nbOff, Sec: int64(s)}}
+		return true
+	}
+	// backward: notAfter shortly after the clock, notBefore s seconds earlier (year ≥ 0 ⇒ k ≤ 3)
+	s := pickWitness(r, lo, hi, 3)
+	if s == 0 {
+		return false
+	}
+	end := c.Pick(r, []int64{hr, min, dy, 10 * sec, 500 * ms})
+	k.SNA = TD{Kind: 1, T: T{Rel: true, Off: end}}
+	k.SNB = TD{Kind: 1, T: T{Rel: true, Off: end, Sec: -int64(s)}}
+	if r.Chance(1, 3) { // relative notAfter from the far-past start cannot span it (|d| < 292 y): absolute only
+		k.SNA = TD{Kind: 1, T: T{Rel: true, Off: end + c.Pick(r, []int64{0, 1, sec - 1})}}
+	}
+	return true
 }
 
 func sshOf(g Full, p *ClaimSet, ct uint32) (mn, mx, df int64) {
@@ -273,7 +324,7 @@ func genSSH(r *c.Rng, jsonOnly bool) *Case {
 		case 7:
 			return TD{Kind: 1, T: c.Pick(r, absTimes)}
 		case 8: // the overflow family (D6): vb − va wraps into the accepted window
-			if s := wrapWitness(mn, addSat(mx, k.Backdate), int64(1+r.Intn(13)), int64(r.Intn(80000))); s != 0 && s < 1<<40 {
+			if s := pickWitness(r, mn, addSat(mx, k.Backdate), 13); s != 0 && s < 1<<40 {
 				return TD{Kind: 1, T: T{Rel: true, Off: 0, Sec: 0}}.withSecs(vaOff, s)
 			}
 			return TD{}
@@ -393,6 +444,13 @@ func corner(mode string) []*Case {
 	// exactly max + backdate, and one second more
 	out = append(out, &Case{X509: &X509Case{Mode: "def", G: hard, Backdate: min, SNB: TD{Kind: 1, T: T{Rel: true}}, SNA: TD{Kind: 2, D: dy + min}}})
 	out = append(out, &Case{X509: &X509Case{Mode: "def", G: hard, Backdate: min, SNB: TD{Kind: 1, T: T{Rel: true}}, SNA: TD{Kind: 2, D: dy + min + sec}}})
+	// X.509 overflow family: notAfter = notBefore + k·18446744074 s + 1 h (k = 1, 2, 3: years 2611, 3195, 3780), and backwards
+	for _, kk := range []int64{1, 2, 3} {
+		out = append(out, &Case{X509: &X509Case{Mode: "def", G: hard, Backdate: min, SNB: TD{Kind: 1, T: T{Rel: true}},
+			SNA: TD{Kind: 1, T: T{Rel: true, Sec: kk*18446744074 + 3600}}}})
+	}
+	out = append(out, &Case{X509: &X509Case{Mode: "def", G: hard, Backdate: min, SNB: TD{Kind: 1, T: T{Rel: true, Off: hr, Sec: -(18446744074 + 3600)}},
+		SNA: TD{Kind: 1, T: T{Rel: true, Off: hr}}}})
 	// credential expiring before the default end
 	out = append(out, &Case{X509: &X509Case{Mode: "lim", G: hard, Backdate: min, LNB: T{Rel: true, Off: -hr}, LNA: T{Rel: true, Off: hr}}})
 	out = append(out, &Case{SSH: &SSHCase{Mode: "lim", G: hard, CType: 1, Backdate: min, LNA: T{Rel: true, Off: hr}}})
